@@ -1,3 +1,4 @@
+import MiniconfVerif.Lemmas.GenTiePy
 import MiniconfVerif.Lemmas.PyClient
 
 /-! # C17 — the Python client resolves each request exactly once from its own responses
@@ -129,5 +130,23 @@ example : doneFor (([m [1] "/a" "Continue", m [2] "7" "Ok", m [1] "/b" "Continue
     (dispatch "r".toList) (register (register PySt.empty [1]) [2]))) [1] = [.ok ["/a".toList, "/b".toList]] := by
   decide +kernel
 example : (normalize "/a".toList "c".toList).2 = "/a/c".toList := by decide +kernel
+
+
+/-! ### Tie to the translated source (`Gen/Py.lean`, regenerated from the Python files on every run) -/
+open MiniconfVerif.GenTie MiniconfVerif.PyTable MiniconfVerif.PyClient MiniconfVerif.PathIter in
+/-- The dispatcher of **both** Python clients, as extracted from the AST of `async_.py` / `sync.py` on every run (the
+four discard guards in source order, and per response code the actions on the in-flight entry: append / append if
+non-empty / `set_result` / `set_exception` / `ret[:] = [exception]` / `event.set()` / `del`), interpreted by
+`PyTable.run`, is the model's `dispatch` on which `completes_once`, `interleaving`, `foreign_inert`, … are proved;
+and `_Path.normalize` as translated from `common.py` (Python `startswith`, `rfind`, slice with a possibly negative
+bound, f-string) is the model's `normalize`, its `assert` never failing.  The Lean driver of the correspondence run
+executes exactly these extracted tables / this function against the real clients. -/
+theorem source_dispatch_is_model :
+    (∀ rt st m, run Gen.Py.asyncTable rt st m = dispatch rt st m) ∧
+    (∀ rt st m, run Gen.Py.syncTable rt st m = dispatch rt st m) ∧
+    (∀ current path : Str, (Gen.Py.normalize current path).1 = (normalize current path).1 ∧
+      (Gen.Py.normalize current path).2.1 = (normalize current path).2 ∧
+      ((current = [] ∨ current.head? = some '/') → (Gen.Py.normalize current path).2.2 = true)) :=
+  ⟨async_dispatch_tie, sync_dispatch_tie, normalize_tie⟩
 
 end MiniconfVerif.C17
